@@ -1,7 +1,7 @@
 From Coq Require Import Extraction ExtrOcamlBasic.
 From GM Require Import Base.Topic Model.WsConn Model.SubTrie Model.SubSpec Model.TopicMatch Base.Msg Model.RetTrie Oracle.C18O Oracle.C02O Oracle.C07O Model.Queue Oracle.C10O Model.Limiter Oracle.C03O Model.Broker
   Model.CodecBase Model.CodecProps Model.CodecPackets Model.CodecSpec Oracle.C06O
-  Model.Redis Model.PersistEnc Model.SessStore Model.RQueue Model.Crash Oracle.C09O Model.Auth Oracle.C19O
+  Model.Redis Model.PersistEnc Model.SessStore Model.ConfigV Model.RQueue Model.Crash Oracle.C09O Model.Auth Oracle.C19O
   Model.FedQueue Oracle.C16O Model.FedRoute Oracle.C17O Model.Stats Oracle.C20O.
 Extraction Language OCaml.
 Set Extraction KeepSingleton.
@@ -30,6 +30,7 @@ Extraction "model.ml"
   C09O.c10r_ok C09O.rq_class Topic.split_topic C09O.crash_prefix_fails C09O.explain C09O.model_journal C09O.model_prefix
   PersistEnc.enc_elem PersistEnc.dec_elem PersistEnc.enc_sub PersistEnc.dec_sub PersistEnc.wf_pelem PersistEnc.wf_psub
   SessStore.ss_run SessStore.ss_ok SessStore.ssout_eqb
+  ConfigV.mqtt_validate ConfigV.env_of ConfigV.accepted_b
   PersistEnc.put64 PersistEnc.be64 PersistEnc.penc_elem_ok PersistEnc.penc_sub_ok
   Auth.au_model_outs Auth.au_start Auth.au_step Auth.au_run Auth.au_validate Auth.broker_connect Auth.load_path Auth.au_load
   C19O.c19_ok C19O.o_step C19O.file_wf C19O.cred_ok C19O.c19_connect_ok C19O.connect_servable
